@@ -36,7 +36,6 @@ type Env struct {
 	cur   *State // the non-old state while translating inside old(...)
 	loopHead *ssa.BasicBlock // loop header for $i / $visited when `at` is not the header
 	atStart  bool            // evaluation point is the start of block `at` (loop head)
-	renamed  bool            // name already mapped through the rename map
 	lax      bool            // postconditions: a local not defined on this path is an arbitrary value
 }
 
@@ -1020,8 +1019,8 @@ func (e *Env) lockOf(x *ECall) TV {
 func chanComp(c *Ctx, base string, t types.Type) string {
 	if t != nil {
 		if ch, ok := t.Underlying().(*types.Chan); ok {
-			dir := map[types.ChanDir]string{types.SendRecv: "bi", types.RecvOnly: "ro", types.SendOnly: "so"}[ch.Dir()]
-			return base + "_" + dir + "_" + sanitize(c.sortOf(ch.Elem()))
+			// one component for all directions: `<-chan T` and `chan<- T` are views of a `chan T`
+			return base + "_" + sanitize(c.sortOf(ch.Elem()))
 		}
 	}
 	return base
